@@ -292,6 +292,11 @@ func (g *seqGen) next() *Op {
 				}
 			}
 		case "setattr":
+			if r.Chance(0.1) {
+				// guarded SETATTR (sattrguard3.check): the server may apply it or answer
+				// NOT_SYNC, and must go on serving the object
+				op.How = 1 + r.Intn(2)
+			}
 			if r.Chance(0.12) {
 				ok = g.handleRef(op, false, kDIR, kREG, kLNK)
 				op.Len = 0
@@ -533,6 +538,7 @@ func toIn(op *Op, tbl map[int]string, lim *Limits) *In {
 	case "read":
 		in.Off, in.Count = op.Off, op.Len
 	case "setattr":
+		in.How = op.How // guard: 0 none, 1 a ctime the object never had, 2 ctime zero
 		if op.X == 1 {
 			in.SetTm = true
 		} else if op.X == 2 {
